@@ -391,7 +391,8 @@ def main(chk: Check) -> None:
         chk.broken("translator", "C13/Gen.v", str(e))
     chk.forbidden_scan()
     if chk.coq_make(["C13/Proofs.vo", "C13/Extract.vo"]):
-        chk.audit_props("C13/Props.v")
+        if chk.audit_props("C13/Props.v") and chk.tier == "thorough":
+            chk.coqchk(["Wz.C13.Props"])
     else:
         chk.cov["obligations"] += 1
     chk.trusted += [
